@@ -7,6 +7,7 @@
 //!   pppsim show <ID> <index>               print the scenario of a run index and its trace
 
 #![allow(dead_code)]
+mod builder_hist;
 mod checks;
 mod engine;
 mod faults;
